@@ -126,8 +126,14 @@ def group(ctx, facts):
     okm = any("BTreeMap" in (F.callee(t)[0] or "") for bb, t in mp)
     ctx.ob("GROUP", "ordered-map", okm, "pairs come out in match-key order on every helper" if okm else "the grouping map is not a BTreeMap: iteration order differs between helpers, so record i is a different pair on each helper", site_of(b))
     en = find(r"BTreeMap::<K, V, A>::entry$")
-    item = "('proj', ('call', 'std::iter::Iterator::next', (('call', 'std::iter::IntoIterator::into_iter', (('arg', 1),)),)), 'as:Some', '0')"
-    oke = len(en) == 1 and str(flow.expr_of(b, en[0][1]["args"][1], max_depth=30)) == f"('proj', {item}, 'match_key')"
+    item = "<no loop item>"
+    oke = False
+    if len(en) == 1:
+        ke = flow.strip_casts(flow.expr_of(b, en[0][1]["args"][1], max_depth=30))
+        # key = <loop item>.match_key, where the loop item comes from iterating the function's input
+        if ke[0] == "proj" and ke[-1] == "match_key" and "Iterator::next" in str(ke[1]) and "('arg', 1)" in str(ke[1]):
+            item = str(ke[1])
+            oke = True
     ctx.ob("GROUP", "keyed-by-match_key", oke, "entry(report.match_key)" if oke else "the map is not keyed by the report's own match_key", site_of(b, en[0][0]) if en else site_of(b))
     am = find(r"Entry::<'a, K, V, A>::and_modify$")
     oi = find(r"Entry::<'a, K, V, A>::or_insert(_with)?$")
